@@ -43,6 +43,9 @@ class Check:
             known = [f for f in json.load(open(FINDINGS)).get('findings', [])
                      if f.get('property') == self.pid and f.get('status') == 'known']
         os.makedirs(REPLAYS, exist_ok=True)
+        import glob
+        for old in glob.glob(os.path.join(REPLAYS, self.pid + '-*.json')):
+            os.unlink(old)
         os.makedirs(EVID, exist_ok=True)
         reported, seen_known = [], {}
         for v in self.violations:
